@@ -6,11 +6,13 @@ make(globals(), "C18", [Walker],
      families=["atoms_cellv", "dip_cellv", "water_vv", "water_vi"],
      counts={"quick": 48, "thorough": 1200},
      events={"quick": 800, "thorough": 3000},
-     rule=("the Walker objects real cell-veto handlers build (upper and lower bounds per direction, grids 4-6 cells "
+     rule=("the Walker objects real cell-veto handlers build (upper and lower bounds per direction, grids 4-11 cells "
            "per side, atom / dipole / water estimators, about half of the cells with zero rate): (choice point) every "
            "table row is forced in turn through the PRNG seam and the coin threshold of each row is bisected on the "
            "forced uniform variate, giving the exact selection probability of every cell, compared with rate/total "
-           "to 1e-12; (in-run) every cell-veto candidate: target cell = active cell + sampled offset modulo the grid, "
+           "to 1e-12; (choice point) every (active cell, offset) pair of the configured grid (4-11 cells per side, box "
+           "lengths 0.8-33): the cell the real cell system reports at the offset is active cell + offset modulo the "
+           "grid; (in-run) every cell-veto candidate: target cell = active cell + sampled offset modulo the grid, "
            "candidate time consistent with budget/(total rate x charge factor x speed), confirmation draw limited by "
            "the bound of the sampled offset; non-trivial = >= 1 walker explored and >= 50 proposals checked"),
      nontrivial=lambda r: r.probes.get("c18_walkers_explored", 0) >= 1 and r.probes.get("c18_proposals_checked", 0) >= 50,
